@@ -11,7 +11,9 @@ def run(tier):
     chk = common.Check("C11", tier)
     chk.lean_obligations(THEOREMS)
     n = 280 if tier == "quick" else 5000
-    cases, results = engine.run_corpus(n, chk.seed, logics=LOGICS, certify=True, timeout=10 if tier == "quick" else 30)
+    extra = [engine.make_boolarg_case(i, chk.seed) for i in range(80 if tier == "quick" else 1500)]
+    cases, results = engine.run_corpus(n, chk.seed, logics=LOGICS, certify=True, timeout=10 if tier == "quick" else 30,
+                                       extra_cases=extra)
     stats, timeouts, nth = {}, 0, 0
     for c, r in zip(cases, results):
         if r["rc"] == "timeout":
